@@ -119,6 +119,8 @@ def run_streams(ctx, mask, monitor, signature, streams, known=None):
             else:
                 recipe = S.gen_sim(rng, gen=name, **kw)
             recipe['case_index'] = i
+            if i % 5 == 2:
+                recipe['via_trace'] = 1       # every fifth run: the arrivals go through the real trace replayer
             if i % 4 == 3 and recipe['algo'] != 'rest':
                 recipe['lean_sched'] = 1      # every fourth run: Scheduler built without the pool sizes in its kwargs
             case, run = S.drive(recipe, mask)
